@@ -131,7 +131,7 @@ def thread_maildir(workdir, own):
     key = "md_own" if own else "md_root"
     md = getattr(_tls, key, None)
     if md is None:
-        md = os.path.join(workdir, "%s-%d" % (key, threading.get_ident()))
+        md = os.path.join(workdir, "%s-%d-%d" % (key, os.getpid(), threading.get_ident()))
         # the ident of a finished thread may be reused: the directory may exist already
         for d in ("", "new", "cur", "tmp"):
             os.makedirs(os.path.join(md, d), exist_ok=True)
@@ -367,3 +367,41 @@ def has_wrap(arg):
 
 def show(b):
     return "".join(chr(c) if 33 <= c < 127 and chr(c) not in "\\:" else "_" if c == 32 else "\\x%02x" % c for c in b)
+
+
+# --------------------------------------------------------------------------------------------
+# a pool of forked worker processes (the sessions are bound by the interpreter lock when run in threads)
+# --------------------------------------------------------------------------------------------
+_POOL_FN = None
+
+
+def _pool_call(item):
+    return _POOL_FN(item)
+
+
+def _pool_init():
+    # the workers inherit the parent's handlers (vlib.Scratch removes the scratch directory on SIGTERM):
+    # a worker must never clean up
+    import signal
+    for s in (signal.SIGTERM, signal.SIGINT, signal.SIGHUP):
+        signal.signal(s, signal.SIG_DFL)
+
+
+class ForkPool:
+    """Create before any thread is started; fn is inherited by the workers through fork."""
+    def __init__(self, fn, nproc):
+        import multiprocessing
+        global _POOL_FN
+        _POOL_FN = fn
+        self.pool = multiprocessing.get_context("fork").Pool(nproc, initializer=_pool_init)
+
+    def map(self, items):
+        return self.pool.map(_pool_call, items, chunksize=8)
+
+    def close(self):
+        self.pool.close()
+        self.pool.join()
+
+    def abort(self):
+        self.pool.terminate()
+        self.pool.join()
